@@ -138,7 +138,7 @@ theorem set_range_eq_spec_partial (l : Bits) (v : Bool) (a b c : Int) (h : setRa
   sorry
 
 /-- A sufficient syntactic condition to be outside the region: a non-negative ascending range inside the bitstring. -/
-theorem setRangeAsSlice_false_of_nonneg (l : Bits) (a b c : Int) (ha : 0 ≤ a) (hc : 0 < c) (hb : b ≤ (l.length : Int)) :
+theorem setRangeAsSlice_false_of_nonneg (l : Bits) (a b c : Int) (ha : 0 ≤ a) (hb0 : 0 ≤ b) (hc : 0 < c) (hb : b ≤ (l.length : Int)) :
     setRangeAsSlice l a b c = false := by
   sorry
 
